@@ -212,7 +212,7 @@ def run(rep, tier, pool, variants=("shipped",)):
             rep.count("ctx:" + kind)
             if o.get("ok"):
                 continue
-            if o.get("k") in ("hang", "crash", "worker-exc"):
+            if o.get("k") in ("hang", "crash", "worker-exc", "not-run"):
                 rep.count("infra:" + o["k"])
                 continue
             fid = classify(o, fills)
